@@ -188,6 +188,18 @@ def expandMatrix (ls : List Nat) : Except Err ((Nat × Nat × Nat) × (Nat → N
   | none => .error .valueError
   | some lmax => .ok ((ls.length, 2 * lmax + 1, totalDim ls), expandEntry ls lmax)
 
+/-! ### the Legendre factor for `lmax ≤ 1`, explicitly
+
+`o3.Legendre([0, 1])(cos β, |sin β|)` is  `[1/√(4π), √(3/8π) sin β, √(3/4π) cos β, √(3/8π) sin β]`
+(checked against the real module by the harness).  For these band limits the round trip is proved without
+any hypothesis (`Props/C11.lean`, section 5b). -/
+def legendre1 (N j i : Nat) : K :=
+  if i = 0 then Scalar.one / Scalar.sqrt (Scalar.ofNat 4 * Scalar.pi)
+  else if i = 1 then Scalar.sqrt (Scalar.ofNat 3 / (Scalar.ofNat 8 * Scalar.pi)) * Scalar.sin (betas N j)
+  else if i = 2 then Scalar.sqrt (Scalar.ofNat 3 / (Scalar.ofNat 4 * Scalar.pi)) * Scalar.cos (betas N j)
+  else if i = 3 then Scalar.sqrt (Scalar.ofNat 3 / (Scalar.ofNat 8 * Scalar.pi)) * Scalar.sin (betas N j)
+  else Scalar.zero
+
 /-! ### normalisation constants -/
 
 inductive Norm where
@@ -217,18 +229,25 @@ def nFrom (kind : Norm) (lmax_in l : Nat) : K :=
 /-- `_expand_matrix(range(lmax + 1))[l, m, i]` -/
 def expandStd (lmax l m i : Nat) : K := expandEntry (List.range (lmax + 1)) lmax l m i
 
-/-- `ToS2Grid.shb = einsum("lmj,bj,lmi,l->mbi", m, shb, m, n)` -/
-def shbTo (lmax : Nat) (n : Nat → K) (P : Nat → Nat → K) (m b i : Nat) : K :=
-  sumRange (lmax + 1) fun l => sumRange ((lmax + 1) ^ 2) fun j =>
-    expandStd lmax l m j * P b j * expandStd lmax l m i * n l
+/-- `einsum("lmj,bj,lmi,l->mbi", m, shb, m, n)` for an expand matrix `E = m` -/
+def shbToWith (E : Nat → Nat → Nat → K) (lmax : Nat) (n : Nat → K) (P : Nat → Nat → K) (m b i : Nat) : K :=
+  sumRange (lmax + 1) fun l => sumRange ((lmax + 1) ^ 2) fun j => E l m j * P b j * E l m i * n l
+
+/-- `ToS2Grid.shb = einsum("lmj,bj,lmi,l->mbi", m, shb, m, n)`, `m = _expand_matrix(range(lmax + 1))` -/
+def shbTo (lmax : Nat) (n : Nat → K) (P : Nat → Nat → K) : Nat → Nat → Nat → K :=
+  shbToWith (expandStd lmax) lmax n P
 
 /-- `qw = _quadrature_weights(res_beta // 2) * res_beta**2 / res_alpha` -/
 def qwFrom (N M b : Nat) : K := quadratureWeight (N / 2) b * Scalar.ofNat (N ^ 2) / Scalar.ofNat M
 
+/-- `einsum("lmj,bj,lmi,l,b->mbi", m, shb, m, n, qw)` for an expand matrix `E = m` and weights `qw` -/
+def shbFromWith (E : Nat → Nat → Nat → K) (qw : Nat → K) (lmax : Nat) (n : Nat → K) (P : Nat → Nat → K)
+    (m b i : Nat) : K :=
+  sumRange (lmax + 1) fun l => sumRange ((lmax + 1) ^ 2) fun j => E l m j * P b j * E l m i * n l * qw b
+
 /-- `FromS2Grid.shb = einsum("lmj,bj,lmi,l,b->mbi", m, shb, m, n, qw)` -/
-def shbFrom (lmax N M : Nat) (n : Nat → K) (P : Nat → Nat → K) (m b i : Nat) : K :=
-  sumRange (lmax + 1) fun l => sumRange ((lmax + 1) ^ 2) fun j =>
-    expandStd lmax l m j * P b j * expandStd lmax l m i * n l * qwFrom N M b
+def shbFrom (lmax N M : Nat) (n : Nat → K) (P : Nat → Nat → K) : Nat → Nat → Nat → K :=
+  shbFromWith (expandStd lmax) (qwFrom N M) lmax n P
 
 /-! ### DFT definitions standing for `torch.fft.rfft` / `torch.fft.irfft` -/
 
@@ -307,14 +326,18 @@ def toAlphaDense (lmax M : Nat) (y : Nat → K) (a : Nat) : K :=
 /-- `sa >= sm and sa % 2 == 1` with `(sa, sm) = sha.shape = (res_alpha, 2 lmax + 1)` -/
 def useFFT (lmax M : Nat) : Bool := decide (2 * lmax + 1 ≤ M) && decide (M % 2 = 1)
 
-/-- `ToS2Grid.forward` given the buffer `shb`; result indexed `[beta, alpha]` -/
-def toForwardWith (lmax M : Nat) (shb : Nat → Nat → Nat → K) (x : Nat → K) : Except Err (Nat → Nat → K) :=
-  let y := toCoeff lmax shb x
+/-- the second half of `ToS2Grid.forward`: `irfft(x, sa)` if `sa >= sm and sa % 2 == 1`, else the einsum with
+`sha`;  `y` is indexed `[beta, m]`, the result `[beta, alpha]` -/
+def toAlphaStep (lmax M : Nat) (y : Nat → Nat → K) : Except Err (Nat → Nat → K) :=
   if useFFT lmax M then
     match irfftCheck (2 * lmax + 1) M with
     | .error e => .error e
     | .ok _ => .ok fun b => irfftCore (y b) (2 * lmax + 1) M
   else .ok fun b => toAlphaDense lmax M (y b)
+
+/-- `ToS2Grid.forward` given the buffer `shb`; result indexed `[beta, alpha]` -/
+def toForwardWith (lmax M : Nat) (shb : Nat → Nat → Nat → K) (x : Nat → K) : Except Err (Nat → Nat → K) :=
+  toAlphaStep lmax M (toCoeff lmax shb x)
 
 /-- the einsum path regardless of the branch condition -/
 def toForwardDenseWith (lmax M : Nat) (shb : Nat → Nat → Nat → K) (x : Nat → K) (b a : Nat) : K :=
@@ -332,13 +355,20 @@ def fromAlphaDense (lmax M : Nat) (g : Nat → K) (m : Nat) : K :=
 def fromCoeff (lmax N : Nat) (shb : Nat → Nat → Nat → K) (y : Nat → Nat → K) (i : Nat) : K :=
   sumRange N fun b => sumRange (2 * lmax + 1) fun m => shb m b i * y b m
 
-/-- `FromS2Grid.forward` given the buffer `shb`; the grid signal is indexed `[beta, alpha]` -/
-def fromForwardWith (lmax N M : Nat) (shb : Nat → Nat → Nat → K) (g : Nat → Nat → K) : Except Err (Nat → K) :=
+/-- the first half of `FromS2Grid.forward`: `rfft(x, sm // 2)` if `sm <= sa and sa % 2 == 1`, else the einsum
+with `sha`;  `g` is indexed `[beta, alpha]`, the result `[beta, m]` -/
+def fromAlphaStep (lmax M : Nat) (g : Nat → Nat → K) : Except Err (Nat → Nat → K) :=
   if useFFT lmax M then
     match rfftCheck ((2 * lmax + 1) / 2) M with
     | .error e => .error e
-    | .ok _ => .ok (fromCoeff lmax N shb fun b => rfftCore (g b) ((2 * lmax + 1) / 2) M)
-  else .ok (fromCoeff lmax N shb fun b => fromAlphaDense lmax M (g b))
+    | .ok _ => .ok fun b => rfftCore (g b) ((2 * lmax + 1) / 2) M
+  else .ok fun b => fromAlphaDense lmax M (g b)
+
+/-- `FromS2Grid.forward` given the buffer `shb`; the grid signal is indexed `[beta, alpha]` -/
+def fromForwardWith (lmax N M : Nat) (shb : Nat → Nat → Nat → K) (g : Nat → Nat → K) : Except Err (Nat → K) :=
+  match fromAlphaStep lmax M g with
+  | .error e => .error e
+  | .ok y => .ok (fromCoeff lmax N shb y)
 
 def fromForwardDenseWith (lmax N M : Nat) (shb : Nat → Nat → Nat → K) (g : Nat → Nat → K) (i : Nat) : K :=
   fromCoeff lmax N shb (fun b => fromAlphaDense lmax M (g b)) i
